@@ -243,6 +243,10 @@ static int process_completed_fragment(sqfs_block_processor_t *proc,
 
 		if (proc->fblk_lookup_error != 0) {
 			err = proc->fblk_lookup_error;
+
+			/* if it was inserted, it belongs to the table now */
+			if (entry != NULL)
+				chunk = NULL;
 			goto fail;
 		}
 
